@@ -13,6 +13,39 @@ from vf.pyvc.values import ClassV
 from vf.pyvc import loader
 from .base import base_registry
 
+import z3
+
+from vf.pyvc import contracts as _c, interp as _i
+from vf.pyvc.values import mk_bool
+
+
+# ---------------------------------------------------------------- non-forking boolean spec forms
+# `A and B`, `A or B`, `A ==> B` in a clause are evaluated lazily (the right operand only where the left one allows it), which
+# forks the evaluation and costs two feasibility queries per operator.  For operands that are TOTAL (cannot raise) the forms
+# below denote the same truth value without forking:  conj(a, b, ...), disj(a, b, ...), imp(a, b).
+def _truths(E, st, args):
+    ts = [E.truth(a, st) for a in args]
+    return [z3.BoolVal(t) if isinstance(t, bool) else t for t in ts]
+
+
+def _sf_conj(E, st, args, kw):
+    return [('val', st, mk_bool(z3.simplify(z3.And(_truths(E, st, args)))))]
+
+
+def _sf_disj(E, st, args, kw):
+    return [('val', st, mk_bool(z3.simplify(z3.Or(_truths(E, st, args)))))]
+
+
+def _sf_imp(E, st, args, kw):
+    a, b = _truths(E, st, args)
+    return [('val', st, mk_bool(z3.simplify(z3.Implies(a, b))))]
+
+
+for _nm, _fn in (('conj', _sf_conj), ('disj', _sf_disj), ('imp', _sf_imp)):
+    _c.SPEC_FORMS.setdefault(_nm, _fn)
+    _i.SPEC_BUILTINS.setdefault(_nm, _i.BuiltinV('spec.' + _nm, _fn))
+
+
 INT = 'Crypto.Math._IntegerNative.IntegerNative'
 OINT = 'obj:' + INT
 BIGINT = 'bounded: bounded/bigint.py (Integer back ends against Python int arithmetic); property C14/C16'
